@@ -929,6 +929,41 @@ def w_elements(task):
     return acc
 
 
+def w_element_pairs(task):
+    """histories of length 2 on one element class: decoding value a first must not change what value b decodes / serialises to
+    (enumeration members are process-wide singletons: state written on them leaks into every later PDU)"""
+    idx, alo, ahi = task
+    label, cls, width, defined, fold = ELEMENTS[idx]
+    acc = Acc()
+    if not hasattr(cls, "from_bits"):
+        return acc
+
+    def one(v):
+        try:
+            m = cls.from_bits(ba(bits_of(v, width)))
+            return ("member", m.name, m.as_bits().to01() if hasattr(m, "as_bits") else None)
+        except DOC_ERRORS as e:
+            return ("error", type(e).__name__, None)
+        except Exception as e:  # noqa: BLE001
+            return ("exception", exc_sig(e), None)
+
+    # reference: every value alone, taken in a forked grandchild-free way: first pass in ascending order *before* any pairing
+    alone = {v: one(v) for v in range(1 << width)}
+    for a in range(alo, ahi):
+        for b in range(1 << width):
+            one(a)
+            got = one(b)
+            if got != alone[b]:
+                acc.violation(f"{label}:value_decodes_differently_after_another_value", {"element": label, "first": a, "then": b, "alone": list(alone[b]), "after": list(got)},
+                              "an element value decodes / serialises differently after another value of the same element was decoded")
+            acc.case(nontrivial=True, calls=2, outcome=(label, got[0]), sample={"element": label, "first": a, "then": b} if (a == alo and b == 1) else None)
+    # and the ascending-order table itself must be what a descending sweep sees
+    for v in range((1 << width) - 1, -1, -1):
+        if alo == 0 and one(v) != alone[v]:
+            acc.violation(f"{label}:value_decodes_differently_in_descending_sweep", {"element": label, "value": v})
+    return acc
+
+
 def class_elements(s):
     """ServiceOptions (8 bit) and FragmentSequenceNumber (4 bit): classes, not enums -- all values, field-exact"""
     for v in range(256):
@@ -1203,6 +1238,21 @@ def run(only=None):
         decl += class_elements(s)
         decl += sync_patterns(s)
         s.declared = decl
+        s.done()
+
+    if want("element_value_pairs"):
+        s = rep.sub("element_value_pairs",
+                    "every enumerated element: all ordered pairs (a, b) of its 2^w values -- decode a, then decode + serialise b: must equal b decoded alone")
+        tasks = []
+        decl = 0
+        for i, (label, cls, width, defined, fold) in enumerate(ELEMENTS):
+            if not hasattr(cls, "from_bits"):
+                continue
+            tasks += [(i, lo, hi) for lo, hi in par.chunks(1 << width, 16 if width >= 7 else 2)]
+            decl += (1 << width) ** 2
+        s.declared = decl
+        for acc in par.pmap(w_element_pairs, tasks, nw):
+            s.merge(acc)
         s.done()
 
     # ---- 2. fields -> bits -> fields ----------------------------------------------------------
